@@ -126,6 +126,7 @@ var c05S2S struct {
 	mapping        pe.WalletOwnerMapping
 	credential     vc.VerifiableCredential
 	presentations  map[string]vc.VerifiablePresentation
+	decoys         int
 }
 
 func c05S2SInit(t *testing.T, tc *testCtx) {
@@ -294,6 +295,13 @@ func c05IamLevel(base *Wrapper) storage.VerifC05Level {
 				// the presentation does not cover: Want/Post select variants of them
 				fns = append(fns, func() string {
 					cid, scope, sub, raw := c05ClientID(r.Want), c05Scope(r.Post), c05S2S.submissionJSON, c05S2SPresentation(r.Fmt, r.ID).Raw()
+					if r.Fmt == "multi" {
+						// an envelope of two presentations: a decoy with a nonce of its own first, the presentation under test second
+						c05S2S.decoys++
+						decoy := c05S2SPresentation("", fmt.Sprintf("decoy-%d", c05S2S.decoys))
+						raw = "[" + decoy.Raw() + "," + c05S2SPresentation("", r.ID).Raw() + "]"
+						sub = `{"id":"","definition_id":"","descriptor_map":[{"id":"1","path":"$[0]","format":"ldp_vp","path_nested":{"id":"1","path":"$.verifiableCredential","format":"ldp_vc"}}]}`
+					}
 					_, err := w.HandleTokenRequest(httpCtx, HandleTokenRequestRequestObject{SubjectID: issuerSubjectID, Body: &HandleTokenRequestFormdataRequestBody{
 						GrantType: oauth.VpTokenGrantType, ClientId: &cid, Scope: &scope, PresentationSubmission: &sub, Assertion: &raw}})
 					return c05Outcome(err, map[string]string{"presentation nonce has already been used": "used", "unable to store nonce": "store-error"})
@@ -363,7 +371,8 @@ func c05Variants(kind, id string) []storage.VerifC05Req {
 		v = append(v, storage.VerifC05Req{Kind: kind, ID: id, Want: "clientB", Pre: true, Post: true},
 			storage.VerifC05Req{Kind: kind, ID: id, Want: "clientA/", Pre: true, Post: true},
 			storage.VerifC05Req{Kind: kind, ID: id, Want: "clientA", Pre: true, Post: false},
-			storage.VerifC05Req{Kind: kind, ID: id, Want: "clientA", Pre: true, Post: true, Fmt: "jwt"})
+			storage.VerifC05Req{Kind: kind, ID: id, Want: "clientA", Pre: true, Post: true, Fmt: "jwt"},
+			storage.VerifC05Req{Kind: kind, ID: id, Want: "clientA", Pre: true, Post: true, Fmt: "multi"})
 	}
 	return v
 }
